@@ -21,7 +21,7 @@ EXPLANATION = (
 
 def run(tier: str) -> Check:
     check = Check("C04", tier, EXPLANATION)
-    check.rules = ["SPEC-live(T)", "K2(trivia)", "TRIVIA", "RULE-ATOM", "ATOM", "SHAPE", "TERM(no trivia)", "UNROLLED", "R1", "R2", "NAME-COLLISION", "STATE-FIELD"]
+    check.rules = ["SPEC-live(T)", "K2(trivia)", "TRIVIA", "RULE-ATOM", "ATOM", "SHAPE", "TERM(no trivia)", "UNROLLED", "R1", "R2", "NAME-COLLISION", "STATE-FIELD", "GEN-DIFF"]
     check.assumptions = [
         "trivia rules do not use the user stack",
         "which pairs pest hides under @ in every nesting needs the dynamic atomicity of the callee: only the shape-insensitivity necessary condition is decided",
@@ -41,6 +41,22 @@ def run(tier: str) -> Check:
         sig = f"parse_trivia: {cat}"
         check.oblige("TRIVIA", construct, sig, False, sample=True, finding=Finding("TRIVIA", construct, sig, f"{sig}: e.g. {msgs[0]} ({len(msgs)} of {n} scenarios)", {"witness": msgs[0]}))
     check.floor("trivia_model_scenarios", 100)
+    # the generated sibling: generate_parse_trivia() / generate_rule() are decided by the path analysis above on five
+    # rule-table configurations; the model tables of GEN-DIFF that define trivia rules (a table without any @ / $ rule
+    # included) run the emitted closures against Rule.parse and decide where trivia is matched and what it leaves
+    from .. import ops
+    from ..gensem import check_gen
+
+    gcon = "src/pest/grammar/codegen/generate.py::generate_parse_trivia/generate_rule"
+    n_g, bad_g = check_gen(repo, "C04 GEN-DIFF", ops.modifier_masks(repo), tier == "thorough", select=lambda desc, spec: "WHITESPACE" in spec or "COMMENT" in spec)
+    check.count("gen_diff_trivia_tables", n_g)
+    check.oblige("GEN-DIFF", gcon, f"Rule.parse and the generated closures agree on {n_g} model rule tables with trivia rules", True, sample=True)
+    cats_g: dict[str, list[str]] = {}
+    for cat, msg in bad_g:
+        cats_g.setdefault(cat, []).append(msg)
+    for cat, msgs in sorted(cats_g.items()):
+        check.oblige("GEN-DIFF", gcon, cat, False, sample=True, finding=Finding("GEN-DIFF", gcon, cat, f"{cat}: e.g. {msgs[0]} ({len(msgs)} of {n_g} model tables with trivia rules)", {"witness": msgs[0], "more": msgs[1:3]}))
+    check.floor("gen_diff_trivia_tables", 100)
     from .c05 import state_fields
 
     state_fields(check, repo)  # whether trivia is matched at a position must not depend on abandoned attempts
